@@ -231,8 +231,12 @@ pub fn check_geo(prop: &str, g: &GeoCase, rep: &mut Report) {
         "sphere3" => {
             let (a, b, c) = (p[0], p[1], p[2]);
             let nrm = (b - a).cross(c - a);
-            let sinq = nrm.length() / ((b - a).length() * (c - a).length()).max(1e-300);
-            if sinq < 1e-4 {
+            // conditioning: the smallest sine among the three angles (twice the area over the product of the two longest
+            // sides) - whichever vertex an implementation takes as its origin, it cannot do better than that
+            let mut sides = [(b - a).length(), (c - a).length(), (c - b).length()];
+            sides.sort_by(|x, y| y.partial_cmp(x).unwrap());
+            let sinq = nrm.length() / (sides[0] * sides[1]).max(1e-300);
+            if sinq < 1e-6 || sides[2] < 1e-3 * sides[0] {
                 rep.count("ill_conditioned_arguments", 1);
                 return;
             }
@@ -362,7 +366,26 @@ fn gen_geo(r: &mut Rng) -> GeoCase {
             }
         }
         "sphere2" => vec![point(r, scale, off), point(r, scale, off)],
-        "sphere3" => (0..3).map(|_| point(r, scale, off)).collect(),
+        "sphere3" => {
+            let (a, b) = (point(r, scale, off), point(r, scale, off));
+            if r.below(4) == 0 {
+                // thin triangles: the third point close to the line through the other two (huge but decidable circumradius)
+                let h = *r.pick(&[1e-2, 1e-3, 1e-4, 3e-5, 1e-5, 3e-6]);
+                let t = r.range(-0.5, 1.5);
+                let d = b - a;
+                let mut perp = d.cross(unit(r));
+                if perp.length() < 1e-3 * d.length() {
+                    perp = d.cross(DVec3::X) + d.cross(DVec3::Y);
+                }
+                let c = a + t * d + h * d.length() * perp / perp.length().max(1e-300);
+                let mut v = vec![a, b, c];
+                let k = r.below(3);
+                v.rotate_left(k);
+                v
+            } else {
+                vec![a, b, point(r, scale, off)]
+            }
+        }
         _ => {
             let c = point(r, scale, off);
             let rad = if r.below(8) == 0 { 0. } else { scale * r.f() };
